@@ -571,8 +571,14 @@ class DomainLowerer(FragmentTransformer, ValueTransformer, StatementTransformer)
         return domain.rst
 
     def on_fragment(self, fragment):
+        # Subfragments are lowered before this fragment's own statements; restore the domains
+        # of the enclosing fragment once a subfragment (which may define its own) is done.
+        outer_domains = self.domains
         self.domains = fragment.domains
-        return super().on_fragment(fragment)
+        try:
+            return super().on_fragment(fragment)
+        finally:
+            self.domains = outer_domains
 
 
 class LHSMaskCollector:
